@@ -11,6 +11,8 @@
                  lib ([k |-> "ok", c |-> Name.normalize([s])[0]] or [k |-> "err", c |-> ...])
                  -> escaping does not change the denoted component, leaves nothing to escape, and the
                     library's own reading of s is the reference's.
+   k = "uri":    raw (UTF-8 bytes of an arbitrary Name URI string with raw non-ASCII characters), lib, norm
+                 (Name.from_str / Name.normalize of it) -> must be the name the reference reads
    k = "pairs":  names, and the matrices the library/Python computed on all pairs:
                  less (lists of bytes(component)), vless (concatenated encodings), eq,
                  prefix (Name.is_prefix: one matrix per combination of argument forms list/wire/URI x list/wire/URI)
@@ -45,6 +47,18 @@ EscClauses(r) ==
      \cup (IF r.lib.k = "ok" /\ byraw # CErr /\ CompOf(r.lib.c) # byraw THEN {"from_str"} ELSE {})
      \cup (IF r.lib.k = "err" /\ byraw # CErr THEN {"from_str_refused"} ELSE {})
 
+\* k = "uri": raw = UTF-8 bytes of an arbitrary Name URI string s (raw non-ASCII characters, reserved characters,
+\* any slash pattern); lib / norm = what Name.from_str(s) / Name.normalize(s) returned ([k |-> "ok", n] or "err").
+\* Strings the reference grammar does not accept (UriToName = NErr) are not judged.
+UriClauses(r) ==
+  LET want == UriToName(r.raw)
+      bad(o) == o.k = "ok" /\ want # NErr /\ NameOf(o.n) # want
+      refused(o) == o.k = "err" /\ want # NErr
+  IN (IF bad(r.lib) THEN {"uri_from_str"} ELSE {})
+     \cup (IF refused(r.lib) THEN {"uri_from_str_refused"} ELSE {})
+     \cup (IF bad(r.norm) THEN {"uri_normalize"} ELSE {})
+     \cup (IF refused(r.norm) THEN {"uri_normalize_refused"} ELSE {})
+
 PairClauses(r) ==
   LET ns == [i \in 1..Len(r.names) |-> NameOf(r.names[i])]
       I == 1..Len(ns)
@@ -62,6 +76,7 @@ CPairClauses(r) ==
 
 Verdict(r) == CASE r.k = "name"   -> NameClauses(r)
                 [] r.k = "esc"    -> EscClauses(r)
+                [] r.k = "uri"    -> UriClauses(r)
                 [] r.k = "pairs"  -> PairClauses(r)
                 [] r.k = "cpairs" -> CPairClauses(r)
 
